@@ -186,7 +186,7 @@ class Sign(Machine):
                 op = {"kind": "sign1", "i": i, "in": src, "out": self._pick_out(s, src, slots, i), "key": key["name"],
                       "alg": alg, "kid": s.choice(KIDS) if s.chance(0.7) else s.below(1 << 32),
                       "action": s.choice(["error", "error", "skip", "remove-old"]),
-                      "entry": s.choice(["cli", "cli", "lib"]), "ctx": s.choice(["path", "json"])}
+                      "entry": s.choice(["cli", "cli", "lib", "lib_twice"]), "ctx": s.choice(["path", "json"])}
             ops.append(op)
             if op["out"] not in slots:
                 slots.append(op["out"])
@@ -369,11 +369,25 @@ class Sign(Machine):
             from suit_generator.suit_sign_script_base import SignatureAlreadyPresentActions, SuitSignAlgorithms
 
             signer = importlib.import_module("ncs.sign_script").suit_signer_factory()
-            env = signer.sign_envelope(cbor2.loads(data), op["key"], op["kid"], SuitSignAlgorithms(op["alg"]), ctx,
+            obj = cbor2.loads(data)
+            if op["entry"] == "lib_twice":
+                # a caller that keeps its envelope object (plain dict content) and has it signed for two key ids in
+                # turn: the second result is the one judged, against the bytes the object was built from
+                obj = cbor2.CBORTag(obj.tag, dict(obj.value))
+                try:
+                    signer.sign_envelope(obj, op["key"], (op["kid"] + 1) % (1 << 31), SuitSignAlgorithms(op["alg"]), ctx, kms,
+                                         SignatureAlreadyPresentActions(op["action"]))
+                except Exception:  # noqa: BLE001 - a refusal here is judged on the second call
+                    pass
+                if op["i"] % 2:  # the second call on a fresh signer object half of the time
+                    signer = importlib.import_module("ncs.sign_script").suit_signer_factory()
+            env = signer.sign_envelope(obj, op["key"], op["kid"], SuitSignAlgorithms(op["alg"]), ctx,
                                        kms, SignatureAlreadyPresentActions(op["action"]))
             return cbor2.dumps(env)
 
         o = host.tool(run, kind="sign1_lib", faults=faults)
+        if op["entry"] == "lib_twice":
+            model["_extra"]["same_object_signed_twice"] = model["_extra"].get("same_object_signed_twice", 0) + 1
         if o.ok:
             host.write(out_rel, o.value)
         return o
